@@ -228,7 +228,7 @@ def run_direct(col: Collector, cfg, sub="direct"):
     ref = ref_temperature_schedule(cfg)
     info = {}
     with warnings.catch_warnings(record=True) as wlist:
-        warnings.simplefilter("always")
+        warnings.simplefilter("always", category=UserWarning)  # only the single-plateau UserWarning is of interest
         try:
             algo = _build_algo(cfg)
             if cfg["ann"].get("do_annealing") and ref["n_ann"] is not None and algo.algo_parameters["annealing"]["n_iter"] != ref["n_ann"]:
